@@ -205,6 +205,8 @@ LEVEL_TEXT['C12'] += ' Added (units fgresume, bgresume): fg removes a job from t
 TECH['C12'] += ' + fg / bg resume_job_by_index against ghost logs of the system and job-table calls'
 LEVEL_TEXT['C16'] += ' Added (unit assignone): one assignment expands its value once, asks for the variable of its name in the caller\'s scope, assigns once and exports exactly when asked and the assignment succeeded.'
 TECH['C16'] += ' + perform_assignment (ghost log of the variable requests)'
+LEVEL_TEXT['C13'] += ' Added (unit waitloop): the loop of the wait built-in looks at the job table before it waits and alternates strictly afterwards, answering with the first conclusive look.'
+TECH['C13'] += ' + wait_while_running'
 
 def main():
     checks = []
